@@ -353,6 +353,31 @@ pub fn exec_opt(op: &str, t: &[&str]) -> Option<String> {
                         Some(reply)
                     }
                 }
+                "crystal" => {
+                    let st = match crate::state::parse_state(&mut k)? {
+                        Ok(s) => s,
+                        Err(e) => return Some(format!("err {}", e)),
+                    };
+                    let (reply, log, _) = crate::state::run_any(&cfg, st, op == "trace");
+                    if op == "trace" {
+                        let l = log.lock().unwrap();
+                        let mut s = reply;
+                        for (v, sc) in l.vectors.iter().zip(l.scores.iter()) {
+                            s.push_str(" |");
+                            for x in v {
+                                s.push(' ');
+                                s.push_str(&fhex(*x));
+                            }
+                            s.push_str(&match sc {
+                                Some(x) => format!(" ={}", fhex(*x)),
+                                None => " =N".to_string(),
+                            });
+                        }
+                        Some(s)
+                    } else {
+                        Some(reply)
+                    }
+                }
                 _ => None,
             }
         }
